@@ -33,6 +33,18 @@ AS_LOOP = [
     'the function is intentionally non-terminating (exec_allows_no_decreases_clause on do_remapping_loop_one_device only)',
 ]
 
+TB_CONV = TB_COMMON + [
+    'N1 (reference patterns on Copy values) and N3 (`for x in user_iterator` desugared to `loop { match it.next() .. }`, the Rust reference definition of `for`) are applied to fancy_layout_interpreting.rs before verification',
+    'E5: the lazy_static tables US_KEYBOARD_LAYOUT / CHAR_ACCESS_MAP are replaced by external_body accessors (assumed: `get` returns None or a reference into the table)',
+    'E2: the Display impls of fancy_keys.rs are compiled but not verified; format! results are opaque (fmt_req_all axioms for Row, Modifier, KeyCode, Vec<KeyCode>)',
+    'assumed contracts on std: <[T]>::sort keeps the length, Vec::extend / Chars::count have no contract beyond memory safety, HashMap::get_mut, String / FromSet obey the hash key model',
+]
+AS_CONV = [
+    'OUT OF REACH, trusted and named: serde_json::from_reader on arbitrary bytes, layout_parsing_formatting::parse_layout_from_json (serde_json::Value, String case folding) and the file I/O of load_layout_from_file; the claim starts at the fancy_keys AST that the parser returns',
+    'termination of the converter is not proved (exec_allows_no_decreases_clause on the functions that loop over user iterators); panic-freedom is',
+    'Vec lengths are at most isize::MAX',
+]
+
 PROPS = {
     'C19': dict(units=['mapper'], level='proof', trusted_base=TB_MAPPER, assumptions=AS_MAPPER, witness='mapper'),
     'C01': dict(units=['mapper'], level='proof', trusted_base=TB_MAPPER, assumptions=AS_MAPPER, witness='mapper', rests_on=['C19']),
@@ -41,5 +53,7 @@ PROPS = {
     'C11': dict(units=['loop'], level='proof', trusted_base=TB_LOOP, assumptions=AS_LOOP, witness=None, rests_on=['C09']),
     'C12': dict(units=['loop'], level='proof', trusted_base=TB_LOOP, assumptions=AS_LOOP, witness=None),
     'C20': dict(units=['loop'], level='proof', trusted_base=TB_LOOP, assumptions=AS_LOOP, witness=None),
+    'C14': dict(units=['converter', 'mapper', 'glue'], level='proof', trusted_base=TB_MAPPER + TB_CONV[4:], assumptions=AS_CONV + AS_MAPPER, witness=None),
+    'C13': dict(units=['converter'], level='proof', trusted_base=TB_CONV, assumptions=AS_CONV, witness=None),
     'C07': dict(units=['mapper'], level='proof', trusted_base=TB_MAPPER, assumptions=AS_MAPPER, witness='mapper', rests_on=['C19']),
 }
